@@ -81,3 +81,219 @@ def model_invariants(prefixes):
 
 
 ACTION_PROPS = {"C13_Rollback", "C13_Discard"}
+
+
+# ------------------------------------------------------------------------------------------------
+# stage pieces
+# ------------------------------------------------------------------------------------------------
+def model_check(ctx, name, scn, bounds, prefixes, workers=None, timeout=1500):
+    """exhaustive TLC run of Stmt on one scenario: design check. A counterexample here is only a
+    prediction (returned as list of violated names); the real code is judged by the traces."""
+    d = vlib.prepare_spec_dir(ctx, "mc-" + name)
+    consts = dict(bounds, Cfg=tla(scn))
+    names = model_invariants(prefixes)
+    invs = ["TypeOK"] + [n for n in names if n not in ACTION_PROPS]
+    props = [n for n in names if n in ACTION_PROPS]
+    predicted = []
+    # TLC stops at the first violation: drop the violated predicate and repeat so that the graph is
+    # explored completely at least once and every predicted violation is known.
+    while True:
+        mod, cfg = vlib.write_model(d, MODULE, "Stmt_mc", consts, spec="Spec", invariants=invs, properties=props, view="view")
+        r = vlib.tlc(ctx, d, mod, cfg, workers=workers or min(vlib.NCPU, 8), timeout=timeout, heap="6g")
+        if r.ok:
+            ctx.add_tlc(r)
+            ctx.stage("model-check-" + name, distinct=r.distinct, generated=r.generated, depth=r.depth, wall=round(r.wall, 1),
+                      checked=invs + props, predicted_violations=predicted)
+            return predicted
+        if r.violated in invs:
+            invs.remove(r.violated)
+        elif r.violated in props:
+            props.remove(r.violated)
+        else:
+            raise vlib.Infra("TLC: unexpected failure %s/%s on %s:\n%s" % (r.kind, r.violated, name, vlib.tail_errors(r.out)))
+        labels = [re.sub(r"\s+", " ", m) for m in re.findall(r"^/\\ act = (\[.*?\])\s*$", "\n".join(r.trace_states), re.M | re.S)]
+        predicted.append(r.violated)
+        vlib.log("model-level counterexample for %s on %s (prediction only, %d states): %s" % (
+            r.violated, name, len(r.trace_states), " ; ".join(short_label(x) for x in labels)[:1500]))
+
+
+def short_label(txt):
+    m = dict(re.findall(r"(\w+) \|-> (\"[^\"]*\"|<<[^>]*>>|\w+)", txt))
+    return "%s(%s)" % (m.get("n", "?").strip('"'), ",".join(v.strip('"') for k, v in m.items() if k != "n" and v not in ('""', "<<>>", "0", "FALSE", "TRUE")))
+
+
+def export_paths(ctx, name, scn, bounds, timeout=1500):
+    """every transition of the state graph as a labelled path from Init (BFS tree path + the edge)."""
+    d = vlib.prepare_spec_dir(ctx, "gen-" + name)
+    consts = dict(bounds, Cfg=tla(scn))
+    mod, cfg = vlib.write_model(d, MODULE, "Stmt_gen", consts, spec="Spec", action_constraints=["PathOut"], view="view")
+    r = vlib.tlc(ctx, d, mod, cfg, workers=1, timeout=timeout, heap="6g")
+    if not r.ok:
+        raise vlib.Infra("path export failed on %s:\n%s" % (name, vlib.tail_errors(r.out)))
+    paths = set()
+    for line in r.out.splitlines():
+        if line.startswith('"PATH '):
+            labels = json.loads(json.loads(line)[5:])
+            paths.add(tuple(json.dumps(compact(l), sort_keys=True) for l in labels))
+    if not paths:
+        raise vlib.Infra("TLC exported no paths for %s" % name)
+    prefixes = set()
+    for p in paths:
+        for k in range(1, len(p)):
+            prefixes.add(p[:k])
+    leaves = sorted(p for p in paths if p not in prefixes)
+    ctx.stage("export-" + name, transitions=len(paths), maximal_paths=len(leaves), distinct=r.distinct, wall=round(r.wall, 1))
+    return len(paths), leaves
+
+
+def compact(l):
+    out = {"n": l["n"]}
+    for k in ("p", "node", "j"):
+        if l.get(k):
+            out[k] = l[k]
+    if l["n"] in ("Pipeline", "Allocate"):
+        out["g"] = l.get("g", [])
+    if l["n"] == "Pipeline":
+        out["upd"] = bool(l.get("upd"))
+    if l["n"] == "Rollback":
+        out["cp"] = l.get("cp", 0)
+    if l["n"] == "CommitStep":
+        out["ok"] = bool(l.get("ok"))
+    return out
+
+
+def replay_paths(ctx, binary, name, scn, leaves):
+    cfgp = os.path.join(ctx.scratch, "cfg-%s.json" % name)
+    with open(cfgp, "w") as f:
+        json.dump(scn, f)
+    progp = os.path.join(ctx.scratch, "prog-%s.ndjson" % name)
+    with open(progp, "w") as f:
+        for i, p in enumerate(leaves):
+            f.write(json.dumps({"id": "%s-%d" % (name, i), "class": "tlc-" + name, "prog": [json.loads(x) for x in p]}) + "\n")
+    trace = os.path.join(ctx.scratch, "trace-%s.ndjson" % name)
+    p = vlib.run_harness(binary, ["-cfg", cfgp, "-in", progp, "-out", trace])
+    ctx.stage("replay-" + name, programs=len(leaves), out=p.stdout.strip())
+    return trace
+
+
+# ------------------------------------------------------------------------------------------------
+# trace validation (own driver: one TLC run with -continue reports every violating scenario; the
+# signature of a violation names the risky features seen in the trace prefix that led to it)
+# ------------------------------------------------------------------------------------------------
+TV_CONSTS = dict(Cfg="0", MaxOps="0", MaxFail="0", MaxStmts="0")
+
+
+def features(prefix):
+    """risk features of a trace prefix (Scenario event first)."""
+    f = set()
+    state = prefix[0].get("state")
+    cfg = prefix[0].get("cfg", {})
+    for e in prefix[1:]:
+        if e["ev"] == "Call" and e["op"] == "Pipeline" and state is not None:
+            on = state["nodes"].get(e["node"], {}).get("pods", {}).get(e["p"], {})
+            if cfg.get("pods", {}).get(e["p"], {}).get("kind") == "frac" and on.get("st", "none") != "none" and on.get("groups") != e["g"]:
+                f.add("movegpu")
+        if e["ev"] == "Call" and e["op"] == "Convert":
+            f.add("convert")
+        if e["ev"] == "Cache" and e["ok"] == 0:
+            f.add(e["c"] + "fail")
+        if "state" in e:
+            state = e["state"]
+    return sorted(f)
+
+
+def program_of(events):
+    """labels of the program a trace was recorded from (for replay on the current tree)."""
+    prog = []
+    for e in events[1:]:
+        if e["ev"] == "Call":
+            op = e["op"]
+            if op == "CommitEnd":
+                prog.append({"n": "CommitEnd"})
+            elif op == "CommitBegin":
+                prog.append({"n": "CommitBegin"})
+            else:
+                prog.append(compact({"n": op, "p": e["p"], "node": e["node"], "j": e["j"], "g": e["g"], "upd": e["upd"] == 1, "cp": e["cp"]}))
+        elif e["ev"] == "Cache":
+            prog.append({"n": "CommitStep", "p": e["p"], "ok": e["ok"] == 1})
+    return prog
+
+
+def describe(events, limit=40):
+    out = []
+    for e in events[1:]:
+        if e["ev"] == "Call":
+            a = [str(e[k]) for k in ("p", "node", "j") if e.get(k)]
+            if e["op"] in ("Pipeline", "Allocate") and e["g"]:
+                a.append("gpu=" + "/".join(e["g"]))
+            if e["op"] == "Pipeline":
+                a.append("upd=%d" % e["upd"])
+            if e["op"] == "Rollback":
+                a.append("cp=%d" % e["cp"])
+            out.append("%s(%s)%s" % (e["op"], ",".join(a), " ERR" if e["err"] else ""))
+        elif e["ev"] == "Cache":
+            out.append("  Cache.%s(%s)%s" % (e["c"], e["p"], "" if e["ok"] else " FAILS"))
+        elif e["ev"] == "H":
+            out.append("  [%s %s]" % (e["h"], e["p"]))
+    if len(out) > limit:
+        out = out[:3] + ["... %d steps ..." % (len(out) - limit + 3)] + out[-(limit - 3):]
+    return "; ".join(out)
+
+
+def validate(ctx, trace_path, prefixes, label, timeout=3000, heap="8g", max_reports=60):
+    events = vlib.read_ndjson(trace_path)
+    spans = vlib.scenario_index(events)
+    if not spans:
+        raise vlib.Infra("trace %s has no Scenario line" % trace_path)
+    own = [n for pre in prefixes for n in vlib.spec_defs(TRACE, pre)]
+    drift = vlib.spec_defs(TRACE, "D_")
+    stop = "all" if len(prefixes) > 1 else prefixes[0].rstrip("_")
+    d = vlib.prepare_spec_dir(ctx, "tv-" + label)
+    os.symlink(os.path.abspath(trace_path), os.path.join(d, "trace.ndjson"))
+    mod, cfg = vlib.write_model(d, TRACE, TRACE + "_tv", dict(TV_CONSTS, StopOn=json.dumps(stop)), spec="TraceSpec",
+                                invariants=drift, constraints=["Report"])
+    r = vlib.tlc(ctx, d, mod, cfg, workers=min(vlib.NCPU, 8), timeout=timeout, heap=heap)
+    out = r.out
+    found = []
+    for m in re.finditer(r'^<<"VIOL", "(\w+)", (\d+), (\d+)>>$', out, re.M):
+        found.append((m.group(1), int(m.group(2)), int(m.group(3)), "", ""))
+    reported = {n for n in re.findall(r'Viol\("(\w+)"', open(os.path.join(vlib.SPEC, TRACE + ".tla")).read())}
+    missing = [n for n in own if n not in reported]
+    if missing:
+        raise vlib.Infra("StmtTrace!Report does not evaluate %s" % missing)
+    if not r.ok:
+        if r.violated in drift and r.trace_states:
+            l0 = re.search(r"^/\\ l0 = (\d+)", r.trace_states[0], re.M)
+            ln = re.search(r"^/\\ l = (\d+)", r.trace_states[-1], re.M)
+            dm = re.search(r'^/\\ dmsg = "(.*)"', r.trace_states[-1], re.M)
+            found.append((r.violated, int(l0.group(1)), int(ln.group(1)), dm.group(1) if dm else "", ""))
+        else:
+            raise vlib.Infra("TLC failed on trace validation %s:\n%s" % (label, vlib.tail_errors(out)))
+    by_start = {s: e for (s, e) in spans}
+    nviol = 0
+    drifts = []
+    for name, l0, ln, dmsg, last in found:
+        scen = events[l0 - 1:by_start[l0]]
+        prefix = events[l0 - 1:ln - 1]
+        if name.startswith("C") and name not in own:
+            continue            # judged by the other property's check
+        if name in own:
+            nviol += 1
+            if nviol > max_reports:
+                continue
+            feats = features(prefix)
+            sig = "%s [%s]" % (name, ",".join(feats))
+            text = "TLC: invariant %s is FALSE on the real observation after step %d of program %s (%s)\nprogram prefix: %s" % (
+                name, len(prefix) - 1, scen[0].get("id"), scen[0].get("class"), describe(prefix))
+            ctx.violation(sig, text, {"module": TRACE, "invariant": name, "at_event": len(prefix), "cfg": scen[0]["cfg"],
+                                      "prog": program_of(scen), "observed": prefix[-1].get("state") if len(prefix) > 1 else None})
+        else:
+            drifts.append("%s at step %d of program %s%s\nprogram prefix: %s" % (
+                name, len(prefix) - 1, scen[0].get("id"), (" (" + dmsg + ")") if dmsg else "", describe(prefix)))
+    ctx.add_tlc(r)
+    ctx.cov["traces_validated_against_impl"] += len(spans)
+    ctx.cov["trace_events_validated"] += len(events) - len(spans)
+    ctx.stage("validate-" + label, scenarios=len(spans), events=len(events), property_violations=nviol, drift=len(drifts), wall=round(r.wall, 1))
+    if drifts:
+        raise vlib.Infra("specification drift (model of Stmt.tla and real code disagree) in %d scenario(s); first:\n%s" % (len(drifts), drifts[0]))
+    return nviol
